@@ -70,6 +70,9 @@ func (r *Rec) Of(kind string) []Event {
 type Ex struct {
 	N   string
 	Rec *Rec
+	// EmitFinding makes the default output carry one finding (advisory reference = N, Extra = path)
+	// next to the package.
+	EmitFinding bool
 	// Req decides FileRequired. It may call api.Stat().
 	Req func(api filesystem.FileAPI) bool
 	// Out produces the inventory for a file; nil means one package named "<N>|<path>".
@@ -121,7 +124,11 @@ func (e *Ex) Extract(ctx context.Context, in *filesystem.ScanInput) (inventory.I
 	if rerr != nil {
 		return inventory.Inventory{}, rerr
 	}
-	return inventory.Inventory{Packages: []*extractor.Package{{Name: e.N + "|" + in.Path, Version: "1", Locations: []string{in.Path}}}}, nil
+	inv := inventory.Inventory{Packages: []*extractor.Package{{Name: e.N + "|" + in.Path, Version: "1", Locations: []string{in.Path}}}}
+	if e.EmitFinding {
+		inv.Findings = []*detector.Finding{{Adv: &detector.Advisory{ID: &detector.AdvisoryID{Publisher: "ex", Reference: e.N}, Title: "t-" + e.N}, Extra: in.Path}}
+	}
+	return inv, nil
 }
 
 // ToPURL implements extractor.Extractor.
